@@ -9,6 +9,10 @@ package c18
 //      a child process so that an uncontained panic is seen as a dead process (direct.json).
 
 import (
+	ocr2keepers "github.com/smartcontractkit/chainlink-automation/pkg/v3"
+	common "github.com/smartcontractkit/chainlink-common/pkg/types/automation"
+	"github.com/smartcontractkit/libocr/offchainreporting2plus/ocr3types"
+	simutil "github.com/smartcontractkit/chainlink-automation/tools/simulator/util"
 	pkgutil "github.com/smartcontractkit/chainlink-automation/pkg/util"
 	"context"
 	"encoding/json"
@@ -563,6 +567,7 @@ type childObs struct {
 	Subs       int            `json:"subscriptions_left"`
 	CallsAfter int            `json:"provider_calls_after_close"`
 	Died       string         `json:"died,omitempty"`
+	HungObs    int            `json:"observation_calls_that_never_returned,omitempty"`
 	Verdict    string         `json:"verdict"`
 }
 
@@ -589,12 +594,43 @@ func TestC18Child(t *testing.T) {
 		if st != nil {
 			st.at.Store(int32(at))
 		}
-		time.Sleep(60 * time.Second)
-		synctest.Wait()
+		var hung atomic.Int32
+		feed := func(k int) {
+			// an outcome whose history surfaces two proposals on ever higher blocks keeps live records in the proposal
+			// queue, so that Dequeue (final flows, every second) consults the type getter
+			if site != "typegetter" {
+				return
+			}
+			mk := func(typ uint8, n int) common.CoordinatedBlockProposal {
+				id := UpkeepID(typ, n)
+				var tr common.Trigger
+				if typ == 1 {
+					tr = common.NewLogTrigger(common.BlockNumber(1000+k), Hash32("b", 1000+k), &common.LogTriggerExtension{TxHash: Hash32("tx", n), Index: 1, BlockHash: Hash32("lb", n), BlockNumber: 5})
+				} else {
+					tr = common.NewTrigger(common.BlockNumber(1000+k), Hash32("b", 1000+k))
+				}
+				return common.CoordinatedBlockProposal{UpkeepID: id, Trigger: tr, WorkID: simutil.UpkeepWorkID(id, tr)}
+			}
+			raw, _ := ocr2keepers.AutomationOutcome{SurfacedProposals: [][]common.CoordinatedBlockProposal{{mk(1, 7), mk(0, 8)}}}.Encode()
+			hung.Add(1)
+			go func() {
+				_, _ = nd.Plugin.Observation(context.Background(), ocr3types.OutcomeContext{SeqNr: uint64(2 + k), PreviousOutcome: raw}, nil)
+				hung.Add(-1)
+			}()
+		}
+		for k := 0; k < 30; k++ {
+			feed(k)
+			time.Sleep(2 * time.Second)
+			synctest.Wait()
+		}
 		o.Calls60 = snapshotCalls(nd.S)
-		time.Sleep(60 * time.Second)
-		synctest.Wait()
+		for k := 30; k < 60; k++ {
+			feed(k)
+			time.Sleep(2 * time.Second)
+			synctest.Wait()
+		}
 		o.Calls120 = snapshotCalls(nd.S)
+		o.HungObs = int(hung.Load())
 		if st != nil {
 			o.Fired = st.fired.Load() > 0
 			if o.Fired && st.nextAt.Load() != 0 {
@@ -631,6 +667,8 @@ func judgeChild(o *childObs) {
 	switch {
 	case o.Died != "":
 		o.Verdict = "violation: the process did not survive a panic in " + o.Site + ": " + o.Died
+	case o.HungObs > 0:
+		o.Verdict = fmt.Sprintf("violation: after a panic in %s, %d Observation call(s) never returned", o.Site, o.HungObs)
 	case o.Site != "none" && !o.Fired:
 		o.Verdict = "violation: harness: the panic was not injected"
 	case o.Site != "none" && (o.ResumeNs < 0 || o.ResumeNs > int64(10*time.Second)):
@@ -769,6 +807,16 @@ func TestC18(t *testing.T) {
 			if site == "pipeline" && at == 3 {
 				samples = append(samples, o)
 			}
+		}
+	}
+	{
+		// a panic in the injected UpkeepTypeGetter while the proposal queue's Dequeue calls it (final flows' tick goroutine)
+		o := runChild("typegetter", 3)
+		evals++
+		keys = append(keys, "panic/typegetter-in-dequeue/3")
+		dist["panic: "+strings.SplitN(o.Verdict, ":", 2)[0]]++
+		if o.Verdict != "ok" {
+			violations = append(violations, o)
 		}
 	}
 	for _, o := range v2Cases(t, func(env []string, test string) (string, error) {
